@@ -1,16 +1,15 @@
 SPECIFICATION Spec
 CONSTANTS
-  MaxOps = 3
+  MaxOps = 7
   Deviations <- NoDev
   JunkBytes <- MCJunk
-  RegistryOps = TRUE
-  Receivers = FALSE
-  OpSet <- AllOps
+  RegistryOps = FALSE
+  Receivers = TRUE
+  OpSet <- RcvOps
 CHECK_DEADLOCK FALSE
 VIEW ViewNoHist
 INVARIANT FramesRight
-INVARIANT ObjectReports
 INVARIANT HeadDecodes
 INVARIANT ChannelShape
+INVARIANT ReceiverIndependent
 PROPERTY AppendOnly
-PROPERTY ChannelRefinement
